@@ -77,6 +77,28 @@ Fixpoint lits_ok (t : node) : bool :=
   | _ => true
   end.
 
+(* the exported class structures are in the normal form the parser leaves them in: canonical ranges at
+   every subtraction level (sorted, disjoint, not adjacent), inside 0..MaxRune, `anything` only with the
+   single range [0, MaxRune]; the leg ships them without their ASCII bitmaps.  Recomputed by leg
+   c04-analysis2 on every exported class. *)
+Fixpoint sorted_b (prev : Z) (rs : list (Z * Z)) : bool :=
+  match rs with
+  | [] => true
+  | (a, b) :: t => (prev + 1 <? a) && (a <=? b) && sorted_b b t
+  end.
+Definition canon_ranges_b (rs : list (Z * Z)) : bool :=
+  match rs with [] => true | (a, b) :: t => (a <=? b) && sorted_b b t end.
+Fixpoint canon_b (c : cls) : bool :=
+  match c with
+  | Cls rs _ sb _ _ asc =>
+      canon_ranges_b rs && match asc with None => true | Some _ => false end
+      && match sb with Some s => canon_b s | None => true end
+  end.
+Definition cls_good_b (c : cls) : bool :=
+  canon_b c
+  && (if anything c then match ranges c with [(a, b)] => (a =? 0) && (b =? MAXR) | _ => false end else true)
+  && forallb (fun r => (0 <=? fst r) && (fst r <=? snd r) && (snd r <=? MAXR)) (ranges c).
+
 Section Analysis2.
 Variable cat_in : Z -> Z -> bool.
 Variable part_cc : Z -> bool.          (* participatesInCaseConversion, charclass.go:1358 *)
